@@ -2,6 +2,7 @@ package main
 
 import (
 	"fmt"
+	"go/types"
 	"sort"
 	"strings"
 
@@ -143,74 +144,91 @@ func checkC10(c *Ctx) {
 
 	// 3. filter decision
 	ia := p.Fn("internal/adminapi", "IPFilter", "IsAllowed")
-	c.traceRule("filter-decision", "adminapi.(*IPFilter).IsAllowed", ia, c.handlerSpec("ParseIP", "IPFilter."),
+	filterSpec := func() *Spec {
+		sp := c.handlerSpec("ParseIP", "IPFilter.", "IsAllowed")
+		sp.Expand = func(callee *ssa.Function, site ssa.CallInstruction) bool {
+			// the filter's own methods (IsAllowed may delegate to helpers)
+			rc := callee.Signature.Recv()
+			return rc != nil && QualType(namedOf(rc.Type())) == "adminapi.IPFilter"
+		}
+		return sp
+	}
+	// judge: what a path established about the address before it was allowed
+	decision := func(t *Trace, allowed bool) string {
+		parsed, denyHit, allowHit, allowEmpty := false, false, false, false
+		lastDenyTest, firstAllowDecision := -1, -1
+		for i, it := range t.Items {
+			if _, isIf := it.Instr.(*ssa.If); !isIf {
+				continue
+			}
+			r := c.condRel(it)
+			switch {
+			case strings.HasPrefix(r.X, "call:net.ParseIP(") && r.Pred == "":
+				if r.Neq || r.Lo != 0 {
+					parsed = true
+				}
+			case strings.Contains(r.X, "IPNet).Contains(") && strings.Contains(r.X, "IPFilter.denyList"):
+				lastDenyTest = i
+				if r.Lo == 1 {
+					denyHit = true
+				}
+			case strings.Contains(r.X, "IPNet).Contains(") && strings.Contains(r.X, "IPFilter.allowList"):
+				if firstAllowDecision < 0 {
+					firstAllowDecision = i
+				}
+				if r.Lo == 1 {
+					allowHit = true
+				}
+			case strings.Contains(r.X, "len(fld:adminapi.IPFilter.allowList)") && r.Y == "":
+				if firstAllowDecision < 0 {
+					firstAllowDecision = i
+				}
+				if !r.Neq && r.Lo == 0 && r.Hi == 0 {
+					allowEmpty = true
+				}
+			}
+		}
+		if allowed {
+			if !parsed {
+				return "an address that was not parsed successfully is allowed (a nil address matches no deny entry)"
+			}
+			if denyHit {
+				return "an address contained in a deny entry is allowed"
+			}
+			if !allowEmpty && !allowHit {
+				return "allowed although the allow list is non-empty and no entry contains the address"
+			}
+			if lastDenyTest > firstAllowDecision && firstAllowDecision >= 0 {
+				return "allow decision taken before the deny list was consulted"
+			}
+		}
+		return ""
+	}
+	c.traceRule("filter-decision", "adminapi.(*IPFilter).IsAllowed", ia, filterSpec(),
 		"deny wins, unparsable is refused, allow requires an empty allow list or a containing entry",
 		func(t *Trace) string {
 			if len(t.Ret) != 1 || (t.Ret[0].K != ATrue && t.Ret[0].K != AFalse) {
 				return "undecided: non-constant result"
 			}
-			allowed := t.Ret[0].K == ATrue
-			parsed, denyHit, allowHit, allowEmpty := false, false, false, false
-			lastDenyTest, firstAllowDecision := -1, -1
-			for i, it := range t.Items {
-				if _, isIf := it.Instr.(*ssa.If); !isIf {
-					continue
-				}
-				r := c.condRel(it)
-				switch {
-				case strings.HasPrefix(r.X, "call:net.ParseIP(") && r.Pred == "":
-					if r.Neq || r.Lo != 0 {
-						parsed = true
-					}
-				case strings.Contains(r.X, "IPNet).Contains(") && strings.Contains(r.X, "IPFilter.denyList"):
-					lastDenyTest = i
-					if r.Lo == 1 {
-						denyHit = true
-					}
-				case strings.Contains(r.X, "IPNet).Contains(") && strings.Contains(r.X, "IPFilter.allowList"):
-					if firstAllowDecision < 0 {
-						firstAllowDecision = i
-					}
-					if r.Lo == 1 {
-						allowHit = true
-					}
-				case strings.Contains(r.X, "len(fld:adminapi.IPFilter.allowList)") && r.Y == "":
-					if firstAllowDecision < 0 {
-						firstAllowDecision = i
-					}
-					if !r.Neq && r.Lo == 0 && r.Hi == 0 {
-						allowEmpty = true
-					}
-				}
-			}
-			if allowed {
-				if !parsed {
-					return "an address that was not parsed successfully is allowed"
-				}
-				if denyHit {
-					return "an address contained in a deny entry is allowed"
-				}
-				if !allowEmpty && !allowHit {
-					return "allowed although the allow list is non-empty and no entry contains the address"
-				}
-				if lastDenyTest > firstAllowDecision && firstAllowDecision >= 0 {
-					return "allow decision taken before the deny list was consulted"
-				}
-			} else if denyHit || !parsed {
-				return ""
-			}
-			return ""
+			return decision(t, t.Ret[0].K == ATrue)
 		})
 	// deny list is consulted before allowing: the deny loop dominates every `return true`
 	if ia != nil {
 		var denyLoop *ssa.BasicBlock
-		instrsOf(ia, func(in ssa.Instruction) {
-			if ci, ok := in.(ssa.CallInstruction); ok && CalleeName(ci) == "(*net.IPNet).Contains" && strings.Contains(p.Desc(ci.Common().Args[0], nil), "denyList") {
-				denyLoop = loopHeader(in.Block())
+		holder := ia
+		for _, fn := range p.Funcs {
+			if pk := fnPkg(fn); pk == nil || !strings.HasSuffix(pk.Pkg.Path(), "/internal/adminapi") {
+				continue
 			}
-		})
+			instrsOf(fn, func(in ssa.Instruction) {
+				if ci, ok := in.(ssa.CallInstruction); ok && CalleeName(ci) == "(*net.IPNet).Contains" && strings.Contains(p.Desc(ci.Common().Args[0], nil), "denyList") {
+					denyLoop = loopHeader(in.Block())
+					holder = fn
+				}
+			})
+		}
 		ok := denyLoop != nil
-		instrsOf(ia, func(in ssa.Instruction) {
+		instrsOf(holder, func(in ssa.Instruction) {
 			if r, isRet := in.(*ssa.Return); isRet && denyLoop != nil {
 				if b, isB := constBool(r.Results[0]); isB && b && !denyLoop.Dominates(r.Block()) {
 					ok = false
@@ -320,44 +338,63 @@ func checkC10(c *Ctx) {
 		c.Missing("peer-address-only", "adminapi.(*IPFilter).Middleware/handler")
 	} else {
 		found := false
+		decisionName := ""
 		for _, ci := range callsIn(mwInner) {
-			if strings.HasSuffix(CalleeName(ci), "IPFilter).IsAllowed") {
-				found = true
-				d := p.Desc(ci.Common().Args[1], nil)
-				ok := strings.Contains(d, "http.Request.RemoteAddr") && !strings.Contains(d, "Header") && !strings.Contains(d, "GetClientIP")
-				c.Check(ok, "peer-address-only", "adminapi.(*IPFilter).Middleware/handler", p.InstrPos(ci),
-					"the filtered address derives from r.RemoteAddr only", "the filtered address depends on client-supplied data: "+d+" (a forged X-Forwarded-For / X-Real-IP passes an allow list or dodges a deny list)")
+			f := StaticFn(ci)
+			if f == nil || f.Signature.Recv() == nil || QualType(namedOf(f.Signature.Recv().Type())) != "adminapi.IPFilter" {
+				continue
 			}
+			if rs := f.Signature.Results(); rs.Len() != 1 || !types.Identical(rs.At(0).Type(), types.Typ[types.Bool]) || len(ci.Common().Args) < 2 {
+				continue
+			}
+			found = true
+			decisionName = "IPFilter)." + f.Name() + "("
+			d := p.Desc(ci.Common().Args[1], nil)
+			ok := strings.Contains(d, "http.Request.RemoteAddr") && !strings.Contains(d, "Header") && !strings.Contains(d, "GetClientIP")
+			c.Check(ok, "peer-address-only", "adminapi.(*IPFilter).Middleware/handler", p.InstrPos(ci),
+				"the filtered address derives from r.RemoteAddr only", "the filtered address depends on client-supplied data: "+d+" (a forged X-Forwarded-For / X-Real-IP passes an allow list or dodges a deny list)")
 		}
 		if !found {
-			c.Missing("peer-address-only", "adminapi.(*IPFilter).Middleware/IsAllowed-call")
+			c.Missing("peer-address-only", "adminapi.(*IPFilter).Middleware/decision-call")
 		}
-	}
-	c.traceRule("forbidden-not-served", "adminapi.(*IPFilter).Middleware/handler", mwInner, c.handlerSpec("IsAllowed"),
-		"IsAllowed false ⇒ 403 and next is not reached; true ⇒ next without writing",
-		func(t *Trace) string {
-			r, _, ok := c.findRel(t, "IPFilter).IsAllowed(", "", 0, -1)
-			if !ok {
-				return "the filter decision is not tested"
-			}
-			allowed := r.Lo == 1
-			if allowed {
-				if !t.Has("next") {
-					return "allowed request is not served"
+		c.traceRule("forbidden-not-served", "adminapi.(*IPFilter).Middleware/handler", mwInner, c.handlerSpec("IPFilter)."),
+			"filter decision false ⇒ 403 and next is not reached; true ⇒ next without writing",
+			func(t *Trace) string {
+				r, _, ok := c.findRel(t, decisionName, "", 0, -1)
+				if !ok || decisionName == "" {
+					return "the filter decision is not tested"
 				}
-				if t.Has("status:403") {
-					return "allowed request answered 403"
+				allowed := r.Lo == 1
+				if allowed {
+					if !t.Has("next") {
+						return "allowed request is not served"
+					}
+					if t.Has("status:403") {
+						return "allowed request answered 403"
+					}
+				} else {
+					if t.Has("next") {
+						return "request from a refused address is still served"
+					}
+					if !t.Has("status:403") {
+						return "refused request is not answered 403"
+					}
 				}
-			} else {
+				return ""
+			})
+		// the same decision rule, end to end: from the handler through whatever filter methods it calls
+		c.traceRule("filter-decision", "adminapi.(*IPFilter).Middleware/end-to-end", mwInner, filterSpec(),
+			"a request is served only for a parsed peer address that hit no deny entry and (allow list empty or contained); every other request is answered 403",
+			func(t *Trace) string {
 				if t.Has("next") {
-					return "request from a refused address is still served"
+					return decision(t, true)
 				}
 				if !t.Has("status:403") {
 					return "refused request is not answered 403"
 				}
-			}
-			return ""
-		})
+				return ""
+			})
+	}
 
 	// 5. no fail-open
 	sp := c.handlerSpec("IPAllowList", "IPDenyList", "NewIPFilter")
